@@ -60,6 +60,10 @@ SENSITIVITY = {
     "r7a": ("seeded/r7a/patch.diff", "C17", ["result-mismatch", "entry-point-mismatch"], "A: f32 slots, repeated segment"),
     "r7b": ("seeded/r7b/patch.diff", "C17", ["result-mismatch"], "A: stub writes part of its target before failing"),
     "r7c": ("seeded/r7c/patch.diff", "C18", ["callback-invariant"], "A + B: target shape, high combined rank"),
+    "r8a": ("seeded/r8a/patch.diff", "C17", ["entry-point-mismatch"], "A: entry-point clause, query layouts"),
+    "r8b": ("seeded/r8b/patch.diff", "C17", ["process-history-dependence"], "A: fresh-process reference"),
+    "r8c": ("seeded/r8c/patch.diff", "C18", ["wrong-target"], "A: injective callback-to-target attribution, repeated elements"),
+    "r8d": ("seeded/r8d/patch.diff", "C18", ["build-invariant", "build-invoked-on-invalid-input"], "A: setter orders x decision table"),
 }
 # seeded/r7d is kept but not listed: its author reads C18 as forbidding one-point axes for strategies
 # with declared minimum <= 1; the statement's parenthesis does not (see seeded/r7d/meta.json, DESIGN 14.3)
